@@ -6,10 +6,11 @@
 # remove it together with the worktree when done.
 set -u
 WT="$(readlink -f "$1")"; ID="$2"; shift 2
+VSRC="${VERIF_SRC:-/verif}"
 H="/tmp/vh-$(basename "$WT")"
 mkdir -p "$H"
-rsync -a --delete --exclude 'target*' /verif/harness/ "$H/harness/"
+rsync -a --delete --exclude 'target*' "$VSRC/harness/" "$H/harness/"
 sed -i "s#/repo/rs#$WT/rs#g" "$H/harness/Cargo.toml"
-cp /verif/check "$H/check"; rsync -a /verif/tools/ "$H/tools/"
-cp /verif/known_findings.json "$H/" 2>/dev/null || true
+cp "$VSRC/check" "$H/check"; rsync -a "$VSRC/tools/" "$H/tools/"
+cp "$VSRC/known_findings.json" "$H/" 2>/dev/null || true
 cd "$H" && VERIF_ROOT="$H" ./check "$ID" "$@"
